@@ -425,3 +425,30 @@ func Trace() []int32 {
 //
 //go:norace
 func Yields() int64 { return yields }
+
+// ---------------------------------------------------------------------------
+// debug output sink: fmt.Print* calls of the generated parser (Debug(true))
+// are redirected here so that they neither reach the driver's protocol stream
+// nor share a buffer between clients.
+
+var printed int64
+
+// Printf discards debug output, counting it.
+//
+//go:norace
+func Printf(format string, a ...any) (int, error) { printed++; return 0, nil }
+
+// Println discards debug output, counting it.
+//
+//go:norace
+func Println(a ...any) (int, error) { printed++; return 0, nil }
+
+// Print discards debug output, counting it.
+//
+//go:norace
+func Print(a ...any) (int, error) { printed++; return 0, nil }
+
+// Printed returns the number of debug print calls so far.
+//
+//go:norace
+func Printed() int64 { return printed }
